@@ -543,6 +543,9 @@ impl World {
                         // C18
                         match (op.ack_timeout_ms, op.emitted_at_on_conn) {
                             (None, _) => { self.violate("C18", "ack-timeout-without-timeout", format!("tag {} has no ack timeout", tag)); }
+                            // C18 speaks about acknowledged operations; a QoS 0 publish with a timeout (it waits for the write
+                            // completion only) is outside its statement
+                            (Some(_), None) if op.kind == OpKind::Pub0 => {}
                             (Some(_), None) => { self.violate("C18", "ack-timeout-before-written", format!("tag {} timed out although its packet was not completely written on this connection", tag)); }
                             (Some(t), Some((c, at))) => {
                                 if c != ci { self.violate("C18", "ack-timeout-before-written", format!("tag {}", tag)); }
